@@ -24,14 +24,16 @@ Qed.
 Print Assumptions c01_noise_monitor_accepts_model.
 
 (* handleRemoteHandshakePayload returns an identity only for a payload whose
-   identity key is a public key, whose signature was issued BY THAT KEY on
+   identity-key bytes unmarshal to a public key (in whatever valid serialization),
+   whose signature was issued BY THAT KEY on
    "noise-libp2p-static-key:" ++ the remote static key of this handshake, and
    (when checkPeerID) whose ID is the expected one.  For every payload term,
    every remote static, every endpoint configuration. *)
 Theorem c01_noise_identity_only_after_verification : forall p payload remote_static id key,
   handle_payload p payload remote_static = inl (id, key) ->
   key = NPub id /\
-  (exists r ext, payload = NPayload (NPub id) (NSig id (NCat PREFIX remote_static) r) ext) /\
+  (exists kb r ext, payload = NPayload kb (NSig id (NCat PREFIX remote_static) r) ext /\
+                    unmarshal_key kb = Some id) /\
   (p_check p = true -> p_expect p = Some id).
 Proof. exact handle_payload_sound. Qed.
 Print Assumptions c01_noise_identity_only_after_verification.
@@ -44,9 +46,10 @@ Print Assumptions c01_noise_identity_only_after_verification.
    of the private part of rs can compute the session keys. *)
 Theorem c01_noise_remote_is_signer_initiator : forall p st incoming id key st' sent,
   init_finish p st incoming = (Done id key st', sent) ->
-  exists re cs cp rest rs r ext st2,
+  exists re cs cp rest rs r ext st2 kb,
     incoming = [re; cs; cp] :: rest /\
-    read_m2 p st [re; cs; cp] = Some (st2, rs, NPayload (NPub id) (NSig id (NCat PREFIX rs) r) ext) /\
+    read_m2 p st [re; cs; cp] = Some (st2, rs, NPayload kb (NSig id (NCat PREFIX rs) r) ext) /\
+    unmarshal_key kb = Some id /\
     key = NPub id /\ hs_rs st' = Some rs /\ hs_re st' = re /\
     (p_check p = true -> p_expect p = Some id) /\
     ck (hs_sym st') =
@@ -57,14 +60,36 @@ Print Assumptions c01_noise_remote_is_signer_initiator.
 (* the same for the responder and message 3 *)
 Theorem c01_noise_remote_is_signer_responder : forall p st incoming id key st',
   resp_finish p st incoming = Done id key st' ->
-  exists cs cp rest rs r ext,
+  exists cs cp rest rs r ext kb,
     incoming = [cs; cp] :: rest /\
-    read_m3 p st [cs; cp] = Some (st', rs, NPayload (NPub id) (NSig id (NCat PREFIX rs) r) ext) /\
+    read_m3 p st [cs; cp] = Some (st', rs, NPayload kb (NSig id (NCat PREFIX rs) r) ext) /\
+    unmarshal_key kb = Some id /\
     key = NPub id /\ hs_rs st' = Some rs /\
     (p_check p = true -> p_expect p = Some id) /\
     ck (hs_sym st') = NKdf (ck (hs_sym st)) (dh (p_e p) rs) 1.
 Proof. exact resp_finish_done. Qed.
 Print Assumptions c01_noise_remote_is_signer_responder.
+
+(* the reported peer ID is the ID of the KEY, not of the bytes it arrived in: every
+   valid serialization of identity key k (canonical; an unknown field appended; the
+   two fields in the other order; a non-minimal varint — parsed by C08's transcription
+   of proto.Unmarshal, c08.Model.parse_pubkey) yields RemotePeer() = k and
+   RemotePublicKey() = the canonical key k, so one key never appears under two peer IDs *)
+Theorem c01_noise_peer_id_independent_of_key_encoding : forall p k a sg ext rs id key,
+  In k [1; 2; 3]%N ->
+  handle_payload p (NPayload (NKeyBytes (alias_bytes a k)) sg ext) rs = inl (id, key) ->
+  id = k /\ key = NPub k /\
+  handle_payload p (NPayload (NPub k) sg ext) rs = inl (id, key).
+Proof.
+  intros p k a sg ext rs id key Hk H.
+  assert (U : unmarshal_key (NKeyBytes (alias_bytes a k)) = Some k).
+  { destruct a; cbn in Hk; destruct Hk as [<-|[<-|[<-|[]]]]; vm_compute; reflexivity. }
+  unfold handle_payload in *. rewrite U in H. cbn [unmarshal_key]. 
+  destruct (p_check p && _)%bool; [discriminate|].
+  destruct (sig_verify (NPub k) (NCat PREFIX rs) sg); [|discriminate].
+  inversion H; subst. repeat split; reflexivity.
+Qed.
+Print Assumptions c01_noise_peer_id_independent_of_key_encoding.
 
 (* the signature rule is an ideal scheme: one value verifies for exactly one
    key and one message (so a signature over another static key, under another
@@ -468,4 +493,10 @@ Proof. vm_compute. discriminate. Qed.
    peer's ID and no public key at all *)
 Example monitor_rejects_unverified_session_after_panic :
   monitor_case [1; 0;0; 1;0;0;2;0; 2;1;0;3;0; 0;0;0;0;0; 0;0;0;0;0; 1;0;2;0; 1; 5;0;0; 0;3;0]%Z <> [].
+Proof. vm_compute. discriminate. Qed.
+
+(* the monitor rejects a responder reporting a peer ID that is not the ID of the reported key
+   (E's key in a non-canonical serialization, ID derived from the bytes) *)
+Example monitor_rejects_id_of_bytes :
+  monitor_case [1; 0;0; 3;1;1;0;0; 2;0;0;0;0; 0;0;0;0;0; 1;1;13;3;0; 0;0;0;0; 1; 9;0;0; 0;9;3]%Z <> [].
 Proof. vm_compute. discriminate. Qed.
